@@ -5,6 +5,8 @@ pub mod common;
 
 pub mod mempipe;
 pub mod noisekit;
+pub mod sworld;
+pub mod mgrx;
 
 pub mod c01;
 pub mod c02;
@@ -20,6 +22,9 @@ pub fn run_property(prop: &str, ctx: &Ctx) -> Option<Report> {
         "C02" => c02::run(ctx),
         "C03" => c03::run(ctx),
         "C04" => c04::run(ctx),
+        "C05" => mgrx::run(ctx, "C05"),
+        "C06" => mgrx::run(ctx, "C06"),
+        "C10" => mgrx::run(ctx, "C10"),
         "C18" => c18::run(ctx),
         _ => return None,
     })
